@@ -13,6 +13,28 @@ fn main() {
     match args.prop.as_str() {
         "C07" => range::run(&args, &mut report),
         "C05" | "C06" => fmt::run(&args, &mut report),
+        "dbg-fmt" => {
+            // developer aid: print pass 1 and pass 2 for a file (--replay FILE --config NAME)
+            let text = std::fs::read_to_string(args.replay.as_ref().expect("--replay FILE")).expect("file");
+            let cname = args.extra.get("config").cloned().unwrap_or("default".into());
+            let cfg = range::configs().into_iter().find(|c| c.0 == cname).map(|c| c.1).unwrap_or_default();
+            let lvl = emmylua_parser::LuaLanguageLevel::Lua55;
+            let a = emmylua_formatter::reformat_lua_code(&emmylua_formatter::SourceText { text: &text, level: lvl }, &cfg);
+            let b = emmylua_formatter::reformat_lua_code(&emmylua_formatter::SourceText { text: &a, level: lvl }, &cfg);
+            println!("=== pass 1\n{a}=== pass 2\n{b}=== {}", if a == b { "idempotent" } else { "DIFFERENT" });
+            return;
+        }
+        "dbg-tokens" => {
+            let text = std::fs::read_to_string(args.replay.as_ref().expect("--replay FILE")).expect("file");
+            let tree = emmylua_parser::LuaParser::parse(&text, emmylua_parser::ParserConfig::with_level(emmylua_parser::LuaLanguageLevel::Lua55));
+            for el in tree.get_red_root().descendants_with_tokens() {
+                match el {
+                    rowan::NodeOrToken::Node(n) => println!("{:indent$}{:?}", "", n.kind(), indent = n.ancestors().count()),
+                    rowan::NodeOrToken::Token(t) => println!("{:indent$}{:?} {:?}", "", t.kind(), t.text(), indent = t.parent_ancestors().count() + 1),
+                }
+            }
+            return;
+        }
         "dbg-parse" => {
             // developer aid: print the parser's errors for a file (--replay FILE)
             let text = std::fs::read_to_string(args.replay.as_ref().expect("--replay FILE")).expect("file");
